@@ -249,7 +249,8 @@ def _run_with_pool(pool, tier, seed, B, prog, native, specs, roots, root_nodes, 
             'c06_stale_rest_states': po['rest_states'], 'c06_pair_states': po['pair_states'], 'c06_pair_fixpoints': po['fixpoints'],
             'c06_pair_cut': po['cut'], 'c06_paths': po['paths'], 'c06_transitions': po.get('transitions', 0),
             'layout': spec.describe() if len(spec.maps) <= 12 else spec.describe()[:6] + ['... %d mappings' % len(spec.maps)],
-            'error': res.error,
+            'error': res.error, 'subsumed': res.subsumed,
+            'subsumption_selftest': {'subsumed_nodes_re_expanded': res.selftest_checked, 'successors_outside_the_fixpoint': res.selftest_failures},
         })
     sample_out = []
     for i, s in all_samples[:6]:
@@ -338,6 +339,10 @@ def check(prop, tier, seed):
     if not d['layouts']:
         oc.inconclusive.append('no layout was explored')
     for l in d['layouts']:
+        if l.get('subsumption_selftest', {}).get('successors_outside_the_fixpoint'):
+            oc.inconclusive.append('subsumption self-test failed on %s: a subsumed configuration has a successor outside the fixpoint' % l['name'])
+            break
+    for l in d['layouts']:
         if l.get('error'):
             oc.inconclusive.append('unsupported construct while exploring %s: %s' % (l['name'], l['error']))
             break
@@ -368,6 +373,8 @@ def check(prop, tier, seed):
         'bounds': {'max_keys_held_N': sorted(set(l['N'] for l in lays)), 'depth_cap': max([l['depth'] for l in lays] or [0]),
                    'event_keys': 'fully symbolic over all 484 key codes (sub-alphabet runs: restricted to the listed layout keys plus every foreign key)',
                    'outside': 'more than N keys held; layouts outside the corpus; cross-sub-alphabet histories on the large built-in layouts'},
+        'subsumption_selftest': {'subsumed_nodes_re_expanded': sum(l.get('subsumption_selftest', {}).get('subsumed_nodes_re_expanded', 0) for l in lays),
+                                 'successors_outside_the_fixpoint': sum(l.get('subsumption_selftest', {}).get('successors_outside_the_fixpoint', 0) for l in lays)},
         'skipped_layouts': d['skipped'], 'shared_exploration_cache_hit': d.get('cache_hit', False), 'exploration_secs': d['secs'],
         'mir': d['mir'],
     }
